@@ -46,7 +46,7 @@ def rand_tree(rng, depth, hashable=False):
         return rand_scalar(rng) if hashable else rand_item(rng)
     # (flist / fdict: falsy whatever they hold; ntuple: a tuple subclass with its own constructor)
     classes = ['tuple', 'frozenset'] if hashable else ['list', 'list', 'tuple', 'set', 'frozenset', 'dict', 'dict', 'odict',
-                                                       'flist', 'fdict', 'ntuple']
+                                                       'flist', 'fdict', 'ntuple', 'fset']
     cls = rng.choice(classes)
     n = rng.randint(0, 3)
     if cls in ('dict', 'odict', 'fdict'):
@@ -58,7 +58,7 @@ def rand_tree(rng, depth, hashable=False):
             seen.add(pyeq_key(k))
             items.append({'key': k, 'val': rand_tree(rng, depth - 1)})
         return {'k': 'c', 'cls': cls, 'items': items}
-    if cls in ('set', 'frozenset'):
+    if cls in ('set', 'frozenset', 'fset'):
         items, seen = [], set()
         for _ in range(n):
             x = rand_scalar(rng)
@@ -366,7 +366,7 @@ def mutate(rng, t):
             k = rand_scalar(rng)
             if all(B.tree_py(e['key']) != B.tree_py(k) for e in v['items']):
                 v['items'].insert(rng.randint(0, len(v['items'])), {'key': k, 'val': rand_scalar(rng)})
-        elif v['cls'] in ('set', 'frozenset'):
+        elif v['cls'] in ('set', 'frozenset', 'fset'):
             x = rand_scalar(rng)
             if all(B.tree_py(e) != B.tree_py(x) for e in v['items']):
                 v['items'].append(x)
@@ -374,7 +374,8 @@ def mutate(rng, t):
             v['items'].insert(rng.randint(0, len(v['items'])), rand_scalar(rng))
     else:
         swap = {'list': rng.choice(['tuple', 'flist']), 'tuple': rng.choice(['list', 'ntuple']), 'dict': rng.choice(['odict', 'fdict']),
-                'odict': 'dict', 'set': 'frozenset', 'frozenset': 'set', 'flist': 'list', 'fdict': 'dict', 'ntuple': 'tuple'}
+                'odict': 'dict', 'set': rng.choice(['frozenset', 'fset']), 'frozenset': 'set', 'flist': 'list', 'fdict': 'dict',
+                'ntuple': 'tuple', 'fset': 'set'}
         v['cls'] = swap[v['cls']]
     out = holder['root']
     return out if _buildable(out) else t
